@@ -705,6 +705,9 @@ def layouts(pars_list):
     yield "ragged+empty", ak.unflatten(ak.Array(a), [0] + counts + [0]), list(range(n))
     if n % 2 == 0 and n >= 2:
         yield "regular", ak.to_regular(ak.unflatten(ak.Array(a), [2] * (n // 2)), axis=1), list(range(n))
+        # a regular array with NO track per event (3 * 0 * helix): the number of events is part of the nesting
+        if n == 2:
+            yield "regular-size0", ak.to_regular(ak.unflatten(ak.Array(a[:0]), [0, 0, 0]), axis=1), []
         # the same regular nesting held by ONE n-dimensional NumPy buffer (ak.Array(np.ndarray), ak.from_numpy)
         yield "numpy-regular", ak.Array(a.reshape(n // 2, 2, 5)), list(range(n))
     if n >= 4:
@@ -747,7 +750,7 @@ def do_c07():
                         # give the error matrices the same nesting as the tracks
                         ecounts = kw["dr"]
                         flat_idx = ak.local_index(ak.flatten(kw["dr"], axis=None))
-                        e = e[np.array(order)]
+                        e = e[np.array(order, dtype=np.int64)]
                         lay = kw["dr"]
                         if lname == "numpy-regular":
                             e = ak.Array(np.array(errs)[np.array(order)].reshape(m // 2, 2, 5, 5))
